@@ -2,7 +2,7 @@ import Rustic.Model.Check
 import Rustic.Gen.Constants
 import Driver.Util
 /-! `c05 chk <label> <abstract repository state…> | <raw store, ignored here>` — see harness/src/c05.rs.
-Prints `errs=<sorted finding kinds|none|cmd-err> restore=<ok|bad>`. -/
+Prints `errs=<sorted finding kinds|none|cmd-err> restore=<ok|bad|->` (`-` when errs ≠ none). -/
 namespace Driver.C05
 open Rustic.Check
 
@@ -180,15 +180,19 @@ def handle : List String → String
             index := ps.index.toList.map (fun packs =>
               { packs := (packs.toList.filter (!·.1)).map (·.2), toDelete := (packs.toList.filter (·.1)).map (·.2) }),
             files := ps.files.toList.map (mkFile ps.trees) }
+        -- check's own index: the packs `check_packs` collects; the readers' index: `GlobalIndex::new`
+        let lkc := lkOf (checkIndexPacks false r)
         let lk := lkFirst r
         let fuel := (livePacks r).foldl (fun n p => n + p.blobs.length) 0 + r.snaps.length + 1
         if ambiguous r then
           (if !r.snapsOk || !r.indexOk then "ambig errs=cmd-err"
            else s!"ambig errs={showErrs (indexErrs r ++ listErrs sizes r)}") else
         let errs :=
-          match check sizes true r lk fuel with
+          match checkW false sizes true r lkc fuel with
           | .cmdErr => "cmd-err"
           | .findings es => showErrs es
+        -- the restore verdict is compared only when check is clean (see harness/src/c05.rs `exec`)
+        if errs != "none" then s!"errs={errs} restore=-" else
         s!"errs={errs} restore={if restoreOk r lk fuel then "ok" else "bad"}"
       | _, _ => "bad-op"
   | _ => "bad-op"
